@@ -101,6 +101,34 @@ Theorem C37_rendered_keep_escapes : forall (t : node) (rs : list bytes),
 Proof. exact rendered_keep_escapes. Qed.
 Print Assumptions C37_rendered_keep_escapes.
 
+(* the match statement with the CONCRETE (ported, tie-pinned) matcher: for a normal-form pattern whose groups the matcher
+   treats transparently on this path (an executable check, `group_transparent`), the pattern matches the path iff one of its
+   rendered variants does *)
+Theorem C37_match_iff_some_variant_ported : forall (p : bytes) (t : node) (rs : list bytes) (path : bytes),
+  parse_pattern p = Some t -> render_all t = Some rs -> normal_form t = true -> group_transparent p t path = true ->
+  path_pattern_matches p path = existsb (fun v => path_pattern_matches v path) rs.
+Proof. exact ported_match_iff_some_rendered_variant. Qed.
+Print Assumptions C37_match_iff_some_variant_ported.
+
+(* ... and with the recorded findings carved out SYNTACTICALLY (`carved`: rendering rewrites an expansion, or a star, a
+   doublestar-slash, or a slash followed by a doublestar alternative stands where a group alternative is spliced in), on a
+   complete finite scope: EVERY pattern consisting of a slash and at most 3 tokens over a b / * ? { , } ** (820 patterns) and
+   EVERY clean path of length at most 4 over a b / (25 paths); checked by evaluation inside the kernel (vm_compute) *)
+Theorem C37_match_iff_some_variant_on_scope : forall (p path : bytes) (t : node) (rs : list bytes),
+  In p (scope_patterns 3) -> In path (scope_paths 3) ->
+  parse_pattern p = Some t -> render_all t = Some rs -> carved p t = false ->
+  path_pattern_matches p path = existsb (fun v => path_pattern_matches v path) rs.
+Proof. exact match_iff_some_variant_on_scope. Qed.
+Print Assumptions C37_match_iff_some_variant_on_scope.
+
+(* fourth facet of the matching-vs-rendering finding (key slash-before-doublestar-group): slash a slash group(doublestar) does
+   not match slash a, its rendered variant does; the pattern is in normal form *)
+Theorem C37_slash_before_doublestar_group_refuted :
+  exists p t rs path, parse_pattern p = Some t /\ render_all t = Some rs /\ normal_form t = true /\
+                      path_pattern_matches p path = false /\ existsb (fun v => path_pattern_matches v path) rs = true.
+Proof. exact slash_before_doublestar_group_refuted. Qed.
+Print Assumptions C37_slash_before_doublestar_group_refuted.
+
 (* Compare, for ANY component lists and ANY submatch decomposition: swapping the operands flips the sign *)
 Theorem C37_compare_antisym : forall l1 l2 : list kcomp, compare l2 l1 = CompOpp (compare l1 l2).
 Proof. exact compare_antisym. Qed.
@@ -110,6 +138,29 @@ Print Assumptions C37_compare_antisym.
 Theorem C37_compare_trans : forall a b c : list kcomp, compare a b = Lt -> compare b c = Lt -> compare a c = Lt.
 Proof. exact compare_trans_lt. Qed.
 Print Assumptions C37_compare_trans.
+
+(* Compare is a strict order on canonical keys: irreflexive; 0 only when the two variants have the same canonical key sequence
+   (component types up to the terminal, submatch LENGTHS of * and /**, submatch text of literals); hence total on variants with
+   distinct canonical keys *)
+Theorem C37_compare_irreflexive : forall a : list kcomp, compare a a <> Lt.
+Proof. exact compare_irreflexive. Qed.
+Print Assumptions C37_compare_irreflexive.
+
+Theorem C37_compare_eq_same_keys : forall a b : list kcomp, compare a b = Eq -> map key (canon a) = map key (canon b).
+Proof. exact compare_eq_same_keys. Qed.
+Print Assumptions C37_compare_eq_same_keys.
+
+Theorem C37_compare_total_on_distinct : forall a b : list kcomp, map key (canon a) <> map key (canon b) ->
+  (compare a b = Lt /\ compare b a = Gt) \/ (compare a b = Gt /\ compare b a = Lt).
+Proof. exact compare_total_on_distinct. Qed.
+Print Assumptions C37_compare_total_on_distinct.
+
+(* the variant HighestPrecedencePattern returns is one of the given variants and none of them has higher precedence *)
+Theorem C37_highest_is_maximum : forall (l : list (bytes * list kcomp)) (m : bytes * list kcomp),
+  (forall x y, In x l -> In y l -> vcmp x y = Eq -> x = y) ->
+  highest vcmp l = Some m -> In m l /\ (forall y, In y l -> vcmp m y <> Lt).
+Proof. exact highest_precedence_is_maximum. Qed.
+Print Assumptions C37_highest_is_maximum.
 
 (* HighestPrecedencePattern over ANY permutation of the same variants selects the same variant, provided Compare returns 0
    only between equal variants (monitored on the implementation) — lists of any length *)
@@ -130,3 +181,27 @@ Example C37_compare_example :   (* /a/b* against /a/* on /a/bc: the literal wins
   compare [(tSEP, bs "/"%string); (tLIT, bs "a"%string); (tSEP, bs "/"%string); (tLIT, bs "b"%string); (tGLOB, bs "c"%string); (tTERM, [])]
           [(tSEP, bs "/"%string); (tLIT, bs "a"%string); (tSEP, bs "/"%string); (tGLOB, bs "bc"%string); (tTERM, [])] = Gt.
 Proof. vm_compute. reflexivity. Qed.
+
+(* non-vacuity of the concrete-matcher theorems *)
+Example C37_ported_nonvacuous :
+  exists t rs, parse_pattern (bs "/a/{b,c*}/**"%string) = Some t /\ render_all t = Some rs /\ normal_form t = true /\
+               group_transparent (bs "/a/{b,c*}/**"%string) t (bs "/a/cx/y/z"%string) = true /\
+               path_pattern_matches (bs "/a/{b,c*}/**"%string) (bs "/a/cx/y/z"%string) = true /\
+               path_pattern_matches (bs "/a/{b,c*}/**"%string) (bs "/a/d"%string) = false.
+Proof. eexists. eexists. split; [vm_compute; reflexivity|]. repeat split; vm_compute; reflexivity. Qed.
+
+Example C37_scope_nonvacuous :
+  existsb (beq (bs "/{a}"%string)) (scope_patterns 3) = true /\ existsb (beq (bs "/a/"%string)) (scope_paths 3) = true /\
+  (exists t, parse_pattern (bs "/{a}"%string) = Some t /\ carved (bs "/{a}"%string) t = false) /\
+  path_pattern_matches (bs "/{a}"%string) (bs "/a/"%string) = true.
+Proof.
+  split; [vm_compute; reflexivity|]. split; [vm_compute; reflexivity|]. split; [eexists; split; vm_compute; reflexivity|].
+  vm_compute. reflexivity.
+Qed.
+
+Example C37_highest_example :   (* /a/b* , /a/* and /a/** on /a/bc: the literal-prefix variant wins whatever the order *)
+  let v1 := (bs "/a/b*"%string, [(tSEP, bs "/"%string); (tLIT, bs "a"%string); (tSEP, bs "/"%string); (tLIT, bs "b"%string); (tGLOB, bs "c"%string); (tTERM, [])]) in
+  let v2 := (bs "/a/*"%string, [(tSEP, bs "/"%string); (tLIT, bs "a"%string); (tSEP, bs "/"%string); (tGLOB, bs "bc"%string); (tTERM, [])]) in
+  let v3 := (bs "/a/**"%string, [(tSEP, bs "/"%string); (tLIT, bs "a"%string); (tSDT, bs "/bc"%string)]) in
+  highest vcmp [v1; v2; v3] = Some v1 /\ highest vcmp [v3; v2; v1] = Some v1 /\ highest vcmp [v2; v3; v1] = Some v1.
+Proof. vm_compute. repeat split. Qed.
